@@ -161,7 +161,16 @@ ircam_read_header	(SF_PRIVATE *psf)
 
 	psf_log_printf (psf, "marker: 0x%X\n", marker) ;
 
-	psf->sf.samplerate = (int) samplerate ;
+	/*
+	** The rate is stored as a 32 bit float : the writer rounds INT_MAX up to 2^31, and
+	** converting a float that does not fit an int (or a NaN) is undefined.
+	*/
+	if (samplerate >= 2147483648.0f)
+		psf->sf.samplerate = 0x7FFFFFFF ;
+	else if (samplerate >= 1.0f)
+		psf->sf.samplerate = (int) samplerate ;
+	else
+		psf->sf.samplerate = 0 ;
 
 	psf_log_printf (psf,	"  Sample Rate : %d\n"
 							"  Channels    : %d\n"
